@@ -5,6 +5,9 @@ pub mod c03;
 pub mod c05;
 pub mod c06;
 pub mod c07;
+pub mod accum;
+pub mod c08;
+pub mod c09;
 pub mod c10;
 pub mod c13;
 pub mod c20;
@@ -28,6 +31,8 @@ pub fn all() -> Vec<Prop> {
         Prop { id: "C05", run: c05::run, replay: c05::replay, self_test: common::self_test_codec },
         Prop { id: "C06", run: c06::run, replay: c06::replay, self_test: common::self_test_codec },
         Prop { id: "C07", run: c07::run, replay: c07::replay, self_test: common::self_test_codec },
+        Prop { id: "C08", run: c08::run, replay: c08::replay, self_test: common::self_test_codec },
+        Prop { id: "C09", run: c09::run, replay: c09::replay, self_test: common::self_test_codec },
         Prop { id: "C10", run: c10::run, replay: c10::replay, self_test: common::self_test_codec },
         Prop { id: "C13", run: c13::run, replay: c13::replay, self_test: common::self_test_codec },
         Prop { id: "C20", run: c20::run, replay: c20::replay, self_test: common::self_test_codec },
